@@ -140,28 +140,6 @@ theorem C08_post_enqueues {s s' : State} {l typ f : Nat} {d : Int} (h : Reachabl
     refine ⟨postL_eq_insert hd, ?_, ?_, ?_⟩ <;> first | rfl | trivial
   · cases hstep
 
-/-- shared shape of the three cancel operations and of destruction -/
-theorem cancel_transfer {s s' : State} {a : Act} {l : Nat} {p : Ev → Bool} (h : Reachable s)
-    (hs : step s (.act a) = some s')
-    (hl : ∀ hh : Host, Act.legalTop hh a = decide (l ∈ hh.alive))
-    (ha : ∀ ss : SState, l ∈ ss.h.alive → (applyAct ListQ.impl false ss a).q = (cancelBy ListQ.impl ss p).q ∧
-      (applyAct ListQ.impl false ss a).h.log = ss.h.log ∧
-      (applyAct ListQ.impl false ss a).h.cancelled = (cancelBy ListQ.impl ss p).h.cancelled ∧
-      (applyAct ListQ.impl false ss a).h.posted = ss.h.posted) :
-    pending s' = (pending s).filter (fun e => !p e) ∧ s'.h.log = s.h.log ∧
-    s'.h.cancelled = ((pending s).filter p).reverse ++ s.h.cancelled ∧ s'.h.posted = s.h.posted := by
-  obtain ⟨ss, ss', hinv, hrel, hstep, hrel', _⟩ := step_transfer h hs
-  simp only [Machine.step] at hstep
-  split at hstep
-  · rename_i hlt
-    have hal : l ∈ ss.h.alive := by rw [hl] at hlt; simpa using hlt
-    cases hstep
-    obtain ⟨a1, a2, a3, a4⟩ := ha ss hal
-    simp only [pending]
-    rw [hrel'.1.toList, hrel.1.toList, hrel'.2, hrel.2, a1, a2, a3, a4]
-    exact ⟨rfl, rfl, rfl, rfl⟩
-  · cases hstep
-
 /-- **Cancel by listener and event type** removes exactly the pending events of that listener and
     type (they go to the cancelled ledger) and nothing else; nothing is delivered by it. -/
 theorem C08_cancel_by_type {s s' : State} {l typ : Nat} (h : Reachable s)
